@@ -86,6 +86,21 @@ func runC13(c *Ctx) {
 			exrevs = append(exrevs, kvAny{"*", int64(2500)})
 		}
 		acctKp := kr.by["account"]
+		opKp := kr.by["operator"]
+		buildOp := func() *jwt.OperatorClaims {
+			oc := jwt.NewOperatorClaims(opKp.pub)
+			oc.AccountServerURL = []string{"https://host:9090/jwt/v1//", "https://host/a/b///", "https://host:9090/jwt/v1", "HTTPS://Host/x/?q=1#f"}[n%4]
+			oc.OperatorServiceURLs.Add("nats://localhost:4222", "tls://h:4443")
+			oc.SystemAccount = acctKp.pub
+			oc.AssertServerVersion = "2.9.1"
+			oc.Tags.Add("t1", "t0", "t2")
+			oc.SigningKeys.Add(opKp.pub)
+			oc.Name, oc.Expires, oc.Audience = fmt.Sprintf("content %d", n), 4102444800+int64(n), "aud"
+			if c.Rng.Intn(2) == 0 {
+				oc.Encode(opKp.kp) // encoded before: how the object came to its content is not content
+			}
+			return oc
+		}
 		build := func() (*jwt.AccountClaims, *jwt.GenericClaims) {
 			ac := jwt.NewAccountClaims(acctKp.pub)
 			ac.Limits.JetStreamTieredLimits = jwt.JetStreamTieredLimits{}
@@ -170,9 +185,14 @@ func runC13(c *Ctx) {
 		iats := map[string]int64{}
 		for o := 0; o < orders; o++ {
 			ac, gc := build()
+			oc := buildOp()
 			for r := 0; r < repeats; r++ {
-				for name, cl := range map[string]jwt.Claims{"account": ac, "generic": gc} {
-					tok, err := cl.Encode(acctKp.kp)
+				for name, cl := range map[string]jwt.Claims{"account": ac, "generic": gc, "operator": oc} {
+					kp := acctKp.kp
+					if name == "operator" {
+						kp = opKp.kp
+					}
+					tok, err := cl.Encode(kp)
 					if err != nil {
 						panic(err)
 					}
